@@ -1,6 +1,5 @@
 //! Handles .dockerignore parsing
 
-use std::fs::File;
 use std::io::BufRead;
 use std::io::BufReader;
 use std::ops::Add;
@@ -104,7 +103,7 @@ fn parse_dockerignore(
     let mut result = vec![];
     let mut err = String::new();
 
-    if let Ok(file) = File::open(file_path) {
+    if let Ok(file) = crate::util::open_regular_file(file_path) {
         let reader = BufReader::new(file);
         reader
             .lines()
